@@ -7,7 +7,7 @@
          into a zeros array), its window arithmetic, its guards and its branch order;
      (b) the independent SPECIFICATION (centred crop = firstn/skipn, centred embedding = repeat pad ++ l ++
          repeat pad, per axis; pixel-centre formula oy + ((H-1)/2 - i) sy);
-     (c) the correspondence case type, [agree], [spec_ok], [check].
+     (c) helpers of the correspondence (the case type, [agree], [spec_ok], [check] are in Model/C14k.v).
    Indices over Z / nat, element type polymorphic; numbers of the coordinate clause over NumOps. *)
 From Coq Require Import ZArith QArith List Bool Lia.
 From PAV Require Import Base.Res Base.Check Base.NumOps.
@@ -314,30 +314,6 @@ Definition barr := list (list bool).
 Definition a2 := (zarr * barr)%type.
 Definition qgeom := (Q * Q * Q * Q)%type.
 
-Inductive case :=
-| KResizeU (m : zarr) (rs origin : Z * Z) (pad : Z) (out : res zarr)
-| KExtractU (m : zarr) (y0 y1 x0 x1 : Z) (out : res zarr)
-| KMaskResize (m : barr) (rs : Z * Z) (padv : Z) (out : res barr)
-| KArrResize (a : a2) (rs : Z * Z) (mpv : Z) (out : res a2)
-| KArrPad (a : a2) (k : Z * Z) (mpv : Z) (out : res a2)
-| KArrTrim (a : a2) (k : Z * Z) (out : res a2)
-  (* padded_before_convolution_from then trimmed_after_convolution_from *)
-| KPadTrim (a : a2) (k : Z * Z) (mpv : Z) (out : res a2)
-  (* resized_from(rs) then resized_from(original shape) *)
-| KEnlargeShrink (a : a2) (rs : Z * Z) (mpv : Z) (out : res a2)
-| KTrimArr (mshape : Z * Z) (p : zarr) (ishape : Z * Z) (out : zarr)
-  (* padded = arr.padded_before_convolution_from(k); padded.mask.trimmed_array_from(padded, arr.shape_native) *)
-| KPadTrimArr (a : a2) (k : Z * Z) (out : res zarr)
-| KZoomRegion (m : barr) (out : res (Z * Z * Z * Z))
-| KZoom (a : a2) (buffer : Z) (out : res zarr)
-| KApplyMask (data noise : zarr) (m : barr) (k : option (Z * Z)) (g : qgeom)
-             (out : res (barr * (list Z * list Z) * list (Q * Q)))
-  (* Imaging.apply_mask(mask) then .trimmed_after_convolution_from(k): mask, native data, native noise map, slim grid *)
-| KApplyMaskTrim (data noise : zarr) (m : barr) (k : Z * Z) (g : qgeom)
-                 (out : res (barr * (zarr * zarr) * list (Q * Q)))
-  (* Mask2D.resized_from(rs, pad_value=1) then Grid2D.from_mask *)
-| KResizeCoords (m : barr) (rs : Z * Z) (g : qgeom) (out : res (barr * list (Q * Q))).
-
 Definition zarr_eqb := list_eqb (list_eqb Z.eqb).
 Definition barr_eqb := list_eqb (list_eqb Bool.eqb).
 Definition a2_eqb := prod_eqb zarr_eqb barr_eqb.
@@ -350,39 +326,6 @@ Definition mc_eqb := prod_eqb barr_eqb (list_eqb qq_eqb).
 Definition amt_eqb := prod_eqb (prod_eqb barr_eqb (prod_eqb zarr_eqb zarr_eqb)) (list_eqb qq_eqb).
 
 Definition shape2 {B} (m : list (list B)) : Z * Z := (nrows m, ncols m).
-
-Definition agree (k : case) : bool :=
-  match k with
-  | KResizeU m rs origin pad out => res_eqb zarr_eqb (resized_array_2d_from 0 m rs origin pad) out
-  | KExtractU m y0 y1 x0 x1 out => res_eqb zarr_eqb (extracted_array_2d_from 0 m y0 y1 x0 x1) out
-  | KMaskResize m rs padv out => res_eqb barr_eqb (mask_resized_from m rs padv) out
-  | KArrResize a rs mpv out => res_eqb a2_eqb (array_resized_from 0 a rs mpv) out
-  | KArrPad a k mpv out => res_eqb a2_eqb (padded_before_convolution_from 0 a k mpv) out
-  | KArrTrim a k out => res_eqb a2_eqb (trimmed_after_convolution_from 0 a k) out
-  | KPadTrim a k mpv out =>
-      res_eqb a2_eqb (bind (padded_before_convolution_from 0 a k mpv) (fun p => trimmed_after_convolution_from 0 p k)) out
-  | KEnlargeShrink a rs mpv out =>
-      res_eqb a2_eqb (bind (array_resized_from 0 a rs mpv) (fun p => array_resized_from 0 p (shape2 (snd a)) mpv)) out
-  | KTrimArr ms p is out => zarr_eqb (trimmed_array_from ms p is) out
-  | KPadTrimArr a k out =>
-      res_eqb zarr_eqb (bind (padded_before_convolution_from 0 a k 0)
-                             (fun p => Ok (trimmed_array_from (shape2 (snd p)) (fst p) (shape2 (snd a))))) out
-  | KZoomRegion m out => res_eqb reg_eqb (zoom_region m) out
-  | KZoom a b out => res_eqb zarr_eqb (zoomed_around_mask 0 a b) out
-  | KApplyMask data noise m k g out =>
-      res_eqb am_eqb
-        (bind (imaging_apply_mask 0 data noise m k) (fun '(d, n) =>
-           Ok (snd d, (slim_of 0 (fst d) (snd d), slim_of 0 (fst n) (snd n)), @grid_slim_via_mask QOps (snd d) g)))
-        out
-  | KApplyMaskTrim data noise m k g out =>
-      res_eqb amt_eqb
-        (bind (imaging_apply_mask 0 data noise m (Some k)) (fun dn =>
-         bind (dataset_trimmed 0 dn k) (fun '(d, n) =>
-           Ok (snd d, (fst d, fst n), @grid_slim_via_mask QOps (snd d) g))))
-        out
-  | KResizeCoords m rs g out =>
-      res_eqb mc_eqb (bind (mask_resized_from m rs 1) (fun m' => Ok (m', @grid_slim_via_mask QOps m' g))) out
-  end.
 
 (* ---- what the SPECIFICATION says about an implementation result (never calls the model) ---- *)
 Definition nonneg2 (s : Z * Z) : bool := (0 <=? fst s) && (0 <=? snd s).
@@ -405,80 +348,3 @@ Definition zoom_ok (a : a2) (e : zarr) : bool :=
         (zrange (px - w + 1) (px + 1))) (zrange (py - h + 1) (py + 1))
   end.
 
-Definition spec_ok (k : case) : bool :=
-  match k with
-  | KResizeU m rs origin pad out =>
-      negb (proper m && nonneg2 rs && (fst origin =? -1) && (snd origin =? -1))
-      || res_eqb zarr_eqb out (Ok (resize_spec pad m (fst rs) (snd rs)))
-  | KExtractU m y0 y1 x0 x1 out =>
-      negb (proper m && (y0 <=? y1) && (x0 <=? x1))
-      || res_eqb zarr_eqb out (Ok (tab2 (Z.to_nat (y1 - y0)) (Z.to_nat (x1 - x0))
-                                        (fun i j => ext_get 0 m (y0 + Z.of_nat i) (x0 + Z.of_nat j))))
-  | KMaskResize m rs padv out =>
-      negb (proper m && nonneg2 rs) || res_eqb barr_eqb out (Ok (resize_spec (negb (padv =? 0)) m (fst rs) (snd rs)))
-  | KArrResize a rs mpv out =>
-      negb (proper2 a && nonneg2 rs) || res_eqb a2_eqb out (Ok (resized_a2_spec a rs mpv))
-  | KArrPad a k mpv out =>
-      negb (proper2 a && (1 <=? fst k) && (1 <=? snd k))
-      || res_eqb a2_eqb out (Ok (resized_a2_spec a (nrows (snd a) + fst k - 1, ncols (snd a) + snd k - 1) mpv))
-  | KArrTrim a k out =>
-      negb (proper2 a && odd_kernel k && (fst k - 1 <=? nrows (snd a)) && (snd k - 1 <=? ncols (snd a)))
-      || res_eqb a2_eqb out (Ok (resized_a2_spec a (nrows (snd a) - (fst k - 1), ncols (snd a) - (snd k - 1)) 0))
-  | KPadTrim a k mpv out => negb (proper2 a && odd_kernel k) || res_eqb a2_eqb out (Ok (normal_a2 a))
-  | KEnlargeShrink a rs mpv out => negb (proper2 a && ge2 rs (shape2 (snd a))) || res_eqb a2_eqb out (Ok (normal_a2 a))
-  | KTrimArr ms p is out =>
-      negb (proper p && prod_eqb Z.eqb Z.eqb (shape2 p) ms && nonneg2 is && ge2 ms is && same_parity ms is)
-      || zarr_eqb out (resize_spec 0 p (fst is) (snd is))
-  | KPadTrimArr a k out => negb (proper2 a && odd_kernel k) || res_eqb zarr_eqb out (Ok (zip_mask 0 (fst a) (snd a)))
-  | KZoomRegion m out =>
-      negb (proper m) ||
-      match unmasked_coords m, out with
-      | [], Raise _ => true
-      | _ :: _, Ok (y0, y1, x0, x1) => window_contains m y0 x0 (y1 - y0) (x1 - x0)
-      | _, _ => false
-      end
-  | KZoom a b out =>
-      negb (proper2 a && (0 <=? b)) ||
-      match unmasked_coords (snd a), out with
-      | [], Raise _ => true
-      | _ :: _, Ok e => zoom_ok a e
-      | _, _ => false
-      end
-  | KApplyMask data noise m k g out =>
-      negb (proper data && proper noise && proper m && shape_eqb data m && shape_eqb noise m
-            && match k with Some k' => odd_kernel k' | None => true end)
-      || match out with
-         | Ok (m', (ds, ns), gr) =>
-             list_eqb qtriple_eqb (combine gr (combine ds ns)) (@triples_spec QOps Z 0 data noise m g)
-             && barr_eqb m' (resize_spec true m (nrows m') (ncols m'))
-             && ge2 (shape2 m') (shape2 m) && same_parity (shape2 m') (shape2 m)
-             && match k with Some k' => footprint_inside m' k' | None => true end
-         | Raise _ => false
-         end
-  | KApplyMaskTrim data noise m k g out =>
-      (* inputs that get padded (an unmasked pixel's footprint leaves the frame): the trim gives everything back *)
-      negb (proper data && proper noise && proper m && shape_eqb data m && shape_eqb noise m && odd_kernel k
-            && negb (footprint_inside m k))
-      || match out with
-         | Ok (m', (d', n'), gr) =>
-             barr_eqb m' m && zarr_eqb d' (zip_mask 0 data m) && zarr_eqb n' (zip_mask 0 noise m)
-             && list_eqb qq_eqb gr (map (fun p => @pixel_centre_spec QOps (nrows m) (ncols m) g (fst p) (snd p))
-                                        (unmasked_coords m))
-         | Raise _ => false
-         end
-  | KResizeCoords m rs g out =>
-      negb (proper m && nonneg2 rs && same_parity rs (shape2 m))
-      || match out with
-         | Ok (m', gr) =>
-             barr_eqb m' (resize_spec true m (fst rs) (snd rs))
-             (* every unmasked pixel (a, b) of the result carries the coordinate its source pixel
-                (a + H/2 - r0/2, b + W/2 - r1/2) had in the original frame *)
-             && list_eqb qq_eqb gr
-                  (map (fun p => @pixel_centre_spec QOps (nrows m) (ncols m) g
-                                    (fst p + (nrows m / 2 - fst rs / 2)) (snd p + (ncols m / 2 - snd rs / 2)))
-                       (unmasked_coords m'))
-         | Raise _ => false
-         end
-  end.
-
-Definition check (k : case) : nat := verdict (agree k) (spec_ok k).
